@@ -265,21 +265,19 @@ def normalize_url(
     # Platform-specific magic
     # NOTE: platform parsers work on the canonical url, else dot segments or
     # escapes would change which route they see
+    # NOTE: an url that cannot be parsed belongs to no platform
     if platform_aware:
-        if is_facebook_url(url):
-            try:
+        try:
+            if is_facebook_url(url):
                 p = parse_facebook_url(canonicalize_url(url))
-            except ValueError:
-                p = None
 
-            if p is not None:
-                url = p.url
+                if p is not None:
+                    url = p.url
 
-        elif is_youtube_url(url):
-            try:
+            elif is_youtube_url(url):
                 url = normalize_youtube_url(canonicalize_url(url))
-            except ValueError:
-                pass
+        except ValueError:
+            pass
 
     # Parsing
     # NOTE: an invalid port only raises when accessed
